@@ -136,6 +136,22 @@ def run(ctx):
                         later = run_forked(faults.later_chain, kind, str(d))
                         for cls, text in _judge(kind, later, f'{name}: after the failing call'):
                             findings.append((f'{kind}:{phase}:{fault}:{cls}', text))
+                        # the same failure twice in a row (two processes) on one store: what the first one set aside is there
+                        d2 = faults.fresh(pre[phase], work, 'failtwice')
+                        try:
+                            run_forked(faults.attempt, kind, phase, fault, str(d2), None, None, None, False)   # fails; no retry
+                            second = run_forked(faults.attempt, kind, phase, fault, str(d2))
+                            if fault in ('raise', 'interrupt') and second['exc'] and 'Injected' not in second['exc']:
+                                findings.append((f'{kind}:{phase}:{fault}:second-failure', f'{name}: the second failing call in a '
+                                                 f"row raises {second['exc']} instead of the task's own error"))
+                            elif second.get('retry_exc') or second.get('retry') != faults.ref(kind):
+                                findings.append((f'{kind}:{phase}:{fault}:second-failure', f'{name}: after two failing calls in a '
+                                                 f"row, requesting the value again does not recover: {second.get('retry_exc') or second.get('retry')}"))
+                            later2 = run_forked(faults.later_chain, kind, str(d2))
+                            for cls, text in _judge(kind, later2, f'{name}: after two failing calls in a row'):
+                                findings.append((f'{kind}:{phase}:{fault}:twice:{cls}', text))
+                        finally:
+                            shutil.rmtree(d2, ignore_errors=True)
                         listing = rec['listing']  # right after the failing call
                         if kind == 'dir':
                             if not any(x.endswith('_error') for x in listing) or any(x.endswith('_tmp') for x in listing):
